@@ -2,8 +2,10 @@ package refgen
 
 import (
 	"fmt"
+	"os"
 	"regexp"
 	"strings"
+	"time"
 
 	"github.com/glycerine/zygomys/v9/zygo"
 	"verif/harness/lib"
@@ -156,6 +158,26 @@ func (r *Runner) cleanup() bool {
 	return d == 0 && s == 1 && a == 0 && l == 0
 }
 
+// Watchdog: a single evaluation that exceeds this wall-clock time although the VM step budget is
+// small means the interpreter is stuck inside one instruction; the harness then reports the
+// program and exits with code 97 (the check turns that into a violation with the program in the log).
+var WatchdogSeconds = 20
+
+func (r *Runner) guarded(src string, f func()) {
+	done := make(chan struct{})
+	go func() {
+		select {
+		case <-done:
+		case <-time.After(time.Duration(WatchdogSeconds) * time.Second):
+			fmt.Fprintf(os.Stderr, "HANG: the interpreter did not return from EvalString within %d s (step budget %d): %s\n",
+				WatchdogSeconds, r.Budget, strings.ReplaceAll(src, "\n", " "))
+			os.Exit(97)
+		}
+	}()
+	f()
+	close(done)
+}
+
 // RunSource evaluates one text and returns the canonical observable:
 //
 //	V:<value>|T:<trace>   E:<class>|T:<trace>   BUDGET   PANIC:<msg>
@@ -167,12 +189,18 @@ func (r *Runner) RunSource(src string, failAt int) string {
 	r.trace = r.trace[:0]
 	r.failCtr = 0
 	r.failAt = failAt
-	res := lib.Eval(r.Env, src, r.Budget)
+	var res lib.Result
+	r.guarded(src, func() { res = lib.Eval(r.Env, src, r.Budget) })
 	var out string
 	tr := strings.Join(r.trace, ";")
 	switch res.Class {
 	case lib.OutValue:
 		out = "V:" + RenderValue(res.Val, SnapDepth) + "|T:" + tr
+		// a scope, operand, return address or loop record left behind by a successful evaluation
+		// is a scoping/flow error of the program just run (the model has no such outcome)
+		if d, s, a, l := r.Env.VerifDepths(); d != 0 || s != 1 || a != 0 || l != 0 {
+			out += fmt.Sprintf("|LEFT:data=%d,scopes=%d,addr=%d,loops=%d", d, s-1, a, l)
+		}
 	case lib.OutError:
 		out = "E:" + ErrClass(res.Err) + "|T:" + tr
 	case lib.OutBudget:
@@ -199,6 +227,9 @@ func (r *Runner) RunSourceVerbose(src string, failAt int) (obs string, detail st
 	switch res.Class {
 	case lib.OutValue:
 		obs = "V:" + RenderValue(res.Val, SnapDepth) + "|T:" + tr
+		if d, s, a, l := r.Env.VerifDepths(); d != 0 || s != 1 || a != 0 || l != 0 {
+			obs += fmt.Sprintf("|LEFT:data=%d,scopes=%d,addr=%d,loops=%d", d, s-1, a, l)
+		}
 	case lib.OutError:
 		obs = "E:" + ErrClass(res.Err) + "|T:" + tr
 	case lib.OutBudget:
